@@ -71,9 +71,9 @@ PROPS["C15"] = {
     "units": ["multipart_payload", "multipart_field", "multipart_boundary"],
     "kani": [],
     "technique": "Verus contracts on the extracted real multipart PayloadBuffer (conservation of bytes between stream, pending chunk and buffer; bounded fill; wake-up tokens) and its line/needle readers against a first-occurrence oracle",
-    "level_text": "deductive proof, for all buffer states, boundaries, chunk sequences and limits, that InnerField::read_stream never emits a byte position that is or could still become the start of CRLF--boundary, ends the field exactly at a leading delimiter, consumes nothing otherwise, reports truncation at eof as Incomplete and terminates (decreases), that read_len emits exactly the declared count; and that PayloadBuffer::append_pending/poll_stream conserve bytes (buffer ++ pending is unchanged by moving data), never grow the buffer past its limit, set eof only at stream end, and never return without a wake-up source (stream registered, self-wake, or data the caller must consume); read_max/read_until/readline/unprocessed return exactly the specified prefix and report a truncated body as Incomplete",
+    "level_text": "deductive proof, for all buffer states, boundaries, chunk sequences and limits, that InnerField::read_stream never emits a byte position that is or could still become the start of CRLF--boundary, ends the field exactly at a leading delimiter, consumes nothing otherwise, reports truncation at eof as Incomplete and terminates (decreases), that read_len emits exactly the declared count; and that PayloadBuffer::append_pending/poll_stream conserve bytes (buffer ++ pending is unchanged by moving data), never grow the buffer past its limit, set eof only at stream end, and never return without a wake-up source (stream registered, self-wake, or data the caller must consume); read_max/read_until/readline/readline_or_eof/unprocessed return exactly the specified prefix and report a truncated body as Incomplete; that Inner::read_boundary decides the line it takes (first line, or the rest at end of input) exactly as RFC 2046 5.1.1: `--boundary CRLF` => next part, `--boundary-- CRLF` or `--boundary--` at end of input => end of body, anything else => BoundaryMissing, no complete line and no end of input => waits having consumed nothing; that Inner::skip_until_boundary equals the recursive oracle `skip_spec` (drop complete lines up to the first line that is exactly a delimiter / close-delimiter line; Incomplete at end of input; otherwise wait with only whole non-delimiter lines consumed) and terminates",
     "level_note": "assumes shim contracts for BytesMut/Bytes, memchr::memmem::find == first occurrence, Stream::poll_next returning Pending registers the waker, Waker::wake_by_ref establishes the wake token",
-    "not_decided": ["Multipart::read_boundary / skip_until_boundary / read_field_headers (state machine in multipart.rs): not under contract", "header parsing of each part (httparse dependency)", "composition of read_stream calls into the whole-field content (the per-call contract: emitted bytes are a prefix containing no position that is or may become a delimiter; a delimiter at the head ends the field; nothing else is consumed)"],
+    "not_decided": ["Inner::read_field_headers (httparse) and Inner::poll (the state machine that sequences read_boundary / read_field_headers / fields; Rc<RefCell> safety tokens): not under contract", "header parsing of each part (httparse dependency)", "composition of read_stream calls into the whole-field content (the per-call contract: emitted bytes are a prefix containing no position that is or may become a delimiter; a delimiter at the head ends the field; nothing else is consumed)"],
     "assumptions": ["poll_stream/append_pending precondition: buffer length fits usize; a parked pending chunk is non-empty (established by the functions themselves)"],
 }
 
@@ -166,12 +166,12 @@ PROPS["C09"] = {
 }
 
 PROPS["C13"] = {
-    "units": ["http_encoder_response"],
+    "units": ["http_encoder_response", "http_encoder_poll"],
     "kani": [],
-    "technique": "Verus contracts on the extracted real Encoder::response / update_head / Encoder::size: the wrap-or-pass-through decision as a postcondition over (body size, response head, requested coding)",
-    "level_text": "deductive proof, for every response head, body kind and requested coding, that a body is wrapped by a content encoder exactly when it is non-empty, carries no Content-Encoding yet, the status is none of 101/204/206, the coding is not identity and the codec is compiled in; that exactly then Content-Encoding is set to that coding, Vary: accept-encoding appended and chunking re-enabled, and otherwise the head is left untouched and the body passed through unchanged; that an encoding body reports size Stream (so a stale Content-Length is never sent)",
-    "level_note": "the codecs themselves (flate2, brotli, zstd) and the streaming state machine Encoder::poll_next (spawn_blocking, closures) are not under contract; HeaderMap is abstracted to the facts this function touches",
-    "not_decided": ["losslessness of gzip/deflate/br/zstd (libraries)", "Encoder::poll_next / Decoder::poll_next state machines (finish exactly once, termination)", "AcceptEncoding::negotiate (q-values, wildcards: HashSet + iterator adapters)", "the Compress middleware wiring", "request-body decoding (Decompress)"],
+    "technique": "Verus contracts on the extracted real Encoder::response / update_head / Encoder::size: the wrap-or-pass-through decision as a postcondition over (body size, response head, requested coding); Encoder::poll_next (the streaming state machine) with a ghost record of what was written to / taken from the codec and a prophesied body remainder",
+    "level_text": "deductive proof, for every response head, body kind and requested coding, that a body is wrapped by a content encoder exactly when it is non-empty, carries no Content-Encoding yet, the status is none of 101/204/206, the coding is not identity and the codec is compiled in; that exactly then Content-Encoding is set to that coding, Vary: accept-encoding appended and chunking re-enabled, and otherwise the head is left untouched and the body passed through unchanged; that an encoding body reports size Stream (so a stale Content-Length is never sent); for Encoder::poll_next, for every chunking, every chunk size (in-place and blocking-task path) and every suspension point: every byte the handler's body produces is written to the codec exactly once and in order, every byte taken out of the codec is emitted exactly once and in order, no empty chunk is emitted while encoding, finish() is called only after the body ended and, given the codec law `taken ++ finish() == code(written)`, the concatenation of all emitted chunks is code(the whole body); a finished codec never turns the encoder into a pass-through of further body polls (eof is set or None returned); after eof nothing is polled; an identity encoder forwards the body's items unchanged; the loop terminates",
+    "level_note": "the codecs themselves (flate2, brotli, zstd) are assumed through the ghost codec law; the blocking task (spawn_blocking closure) is assumed glue that writes the chunk and hands the codec back; HeaderMap is abstracted to the facts update_head touches",
+    "not_decided": ["losslessness of gzip/deflate/br/zstd (libraries)", "Decoder::poll_next (request side) state machine", "wake-up when the blocking task is pending (JoinHandle: runtime)", "AcceptEncoding::negotiate (q-values, wildcards: HashSet + iterator adapters)", "the Compress middleware wiring", "request-body decoding (Decompress)"],
     "assumptions": [],
 }
 
@@ -186,17 +186,17 @@ PROPS["C17"] = {
 }
 
 PROPS["C08"] = {
-    "units": ["h2_prepare_response", "h2_handle_response"],
+    "units": ["h2_prepare_response", "h2_handle_response", "h2_payload"],
     "kani": [],
     "technique": "Verus contract with a loop invariant over the handler's header list on the extracted real h2 prepare_response: the outgoing header list is specified exactly (length prefix ++ kept(user headers) ++ date)",
-    "level_text": "deductive proof, for every status, body size and header list, that the HTTP/2 response head carries no connection-specific header (connection, transfer-encoding, upgrade, keep-alive, proxy-connection), that content-length is present exactly once and equals the body size when the size is known, is absent when the response has no body (1xx/204), that a handler-set content-length is forwarded only for a streaming body, that every other handler header is copied in order, that a date header is added iff absent, and that the body size is forced to None for 1xx/204; for handle_response: for EVERY sequence of granted capacities and every chunking (incl. chunks larger than the window and empty chunks) the DATA bytes sent are exactly the concatenation of the body's chunks, each byte once and in order (loop invariants `sent ++ chunk_rest ++ pending == total`), END_STREAM is sent exactly after the last byte, a HEAD request or an empty body ends the stream with the head and sends no DATA, and a stream never reserves more flow-control window than min(pending chunk bytes, 16 KiB)",
+    "level_text": "deductive proof, for every status, body size and header list, that the HTTP/2 response head carries no connection-specific header (connection, transfer-encoding, upgrade, keep-alive, proxy-connection), that content-length is present exactly once and equals the body size when the size is known, is absent when the response has no body (1xx/204), that a handler-set content-length is forwarded only for a streaming body, that every other handler header is copied in order, that a date header is added iff absent, and that the body size is forced to None for 1xx/204; for h2::Payload::poll_next (request body): every DATA chunk delivered to the application gives exactly its length back to the stream's receive window, nothing is released otherwise, chunks are delivered in order; for handle_response: for EVERY sequence of granted capacities and every chunking (incl. chunks larger than the window and empty chunks) the DATA bytes sent are exactly the concatenation of the body's chunks, each byte once and in order (loop invariants `sent ++ chunk_rest ++ pending == total`), END_STREAM is sent exactly after the last byte, a HEAD request or an empty body ends the stream with the head and sends no DATA, and a stream never reserves more flow-control window than min(pending chunk bytes, 16 KiB)",
     "level_note": "HeaderName is abstracted to the names this function distinguishes; http::HeaderMap insert/append are ghost-list shims; itoa formatting of the length and the date value are opaque",
-    "not_decided": ["stream independence beyond `a stream never reserves more window than it has data pending` (scheduling between spawned tasks is the h2 crate's)", "liveness when the peer never grants capacity; resets (h2 crate)", "Payload::poll_next releases capacity per chunk (h2 crate flow control)", "suspension points of handle_response (R9: awaits become blocking shim calls)"],
+    "not_decided": ["stream independence beyond `a stream never reserves more window than it has data pending` (scheduling between spawned tasks is the h2 crate's)", "liveness when the peer never grants capacity; resets (h2 crate)", "suspension points of handle_response (R9: awaits become blocking shim calls)"],
     "assumptions": [],
 }
 
 PROPS["C19"] = {
-    "units": ["h1_chunked", "h1_transfer_encoding", "h1_codec", "h1_client_codec", "ws_frame", "multipart_payload", "multipart_field", "files_chunked", "h2_prepare_response", "http_header_map_iter", "web_payload_body", "web_form_body", "multipart_boundary", "h1_encode_headers", "web_json_body"],
+    "units": ["h1_chunked", "h1_transfer_encoding", "h1_codec", "h1_client_codec", "ws_frame", "multipart_payload", "multipart_field", "files_chunked", "h2_prepare_response", "http_header_map_iter", "web_payload_body", "web_form_body", "multipart_boundary", "h1_encode_headers", "web_json_body", "http_encoder_poll", "h2_payload"],
     "only_suffix": ["::safety"],
     "kani": [
         {"crate": "actix-router", "harness": "kc_hex_pair_to_char_full_domain", "kind": "complete", "quick": True, "timeout": 900,
